@@ -67,6 +67,70 @@ theorem attempt_spec (cfg : Cfg) (h : cfg.rewinds = true) (script : List Outcome
   · simp only [hfb]
     exact ⟨[.sent (original cfg)], by simp, by simp, by simp, by intro w hw; simp at hw; exact Or.inl hw⟩
 
+/-- the wire history is a sequence of loop iterations, each one attempt of the original request
+(to the original URL and scheme) optionally followed directly by its plain-http fallback attempt -/
+inductive Blocks (cfg : Cfg) : List Wire → Prop
+  | nil : Blocks cfg []
+  | one {l} : Blocks cfg l → Blocks cfg (l ++ [.sent (original cfg)])
+  | two {l} : Blocks cfg l → Blocks cfg (l ++ [.sent (original cfg), .sent (origAs cfg false)])
+
+theorem attempt_blocks (cfg : Cfg) (h : cfg.rewinds = true) (script : List Outcome) (acc : List Wire) :
+    (attempt cfg script (initialBody cfg) acc).2.2 = acc ++ [.sent (original cfg)] ∨
+    (attempt cfg script (initialBody cfg) acc).2.2 = acc ++ [.sent (original cfg), .sent (origAs cfg false)] := by
+  unfold attempt
+  simp only [transmit_initial, outcomeOf, origAs_self]
+  by_cases hfb : ((script.headD .net).isErr && cfg.req.tls && cfg.fallback) = true
+  · simp only [hfb, if_true]
+    cases hnb : nextBody cfg with
+    | none => left; rfl
+    | some rem =>
+      have := nextBody_rewinds cfg h rem hnb
+      subst this
+      simp only [h, if_true, transmit_initial]
+      right; simp
+  · simp only [hfb]; left; rfl
+
+theorem sendLoop_blocks (cfg : Cfg) (h : cfg.rewinds = true) :
+    ∀ (b : Nat) (script : List Outcome) (acc : List Wire), Blocks cfg acc →
+      Blocks cfg (sendLoop cfg b script (initialBody cfg) acc).1 := by
+  intro b
+  induction b with
+  | zero =>
+    intro script acc hacc
+    have hb := attempt_blocks cfg h script acc
+    unfold sendLoop
+    generalize attempt cfg script (initialBody cfg) acc = res at hb
+    obtain ⟨o, script', acc'⟩ := res
+    simp only at hb
+    have hacc' : Blocks cfg acc' := by
+      rcases hb with e | e <;> rw [e]
+      · exact Blocks.one hacc
+      · exact Blocks.two hacc
+    simp only
+    split
+    · cases nextBody cfg <;> exact hacc'
+    · exact hacc'
+  | succ b ih =>
+    intro script acc hacc
+    have hb := attempt_blocks cfg h script acc
+    unfold sendLoop
+    generalize attempt cfg script (initialBody cfg) acc = res at hb
+    obtain ⟨o, script', acc'⟩ := res
+    simp only at hb
+    have hacc' : Blocks cfg acc' := by
+      rcases hb with e | e <;> rw [e]
+      · exact Blocks.one hacc
+      · exact Blocks.two hacc
+    simp only
+    split
+    · cases hnb : nextBody cfg with
+      | none => exact hacc'
+      | some rem =>
+        have := nextBody_rewinds cfg h rem hnb
+        subst this
+        exact ih script' acc' hacc'
+    · exact hacc'
+
 /-- without the fallback an iteration is exactly one attempt answered by the head of the script -/
 theorem attempt_nofallback (cfg : Cfg) (hnf : (cfg.req.tls && cfg.fallback) = false)
     (script : List Outcome) (acc : List Wire) :
